@@ -23,6 +23,30 @@ def wallet_term(cls, master, testnet, mnemonic=T.NONE, password=T.NONE):
                            bip85=T.obj(B85, dict(master_node=master, testnet=testnet))))
 
 
+def same_wallet(ob, ev, found, facts, cls, exp, what, where):
+    """Observational equality of a wallet: its class, the master node's API-visible data, network, mnemonic,
+    passphrase, that it is not watch-only and that its BIP85 object is built on the same master."""
+    seed, mn, pwd, net = exp
+    mk_, mc_ = SP.master(seed)
+    nl = normal_leaves(found)
+    ob.require(len(nl) >= 1, what + ': a wallet is returned', where)
+    for cs, leaf in nl:
+        fx = Facts(known_at(facts if facts is not None else Facts(), cs))
+        if not ob.require(T.tag(leaf) == 'obj' and leaf[1] == cls, what + ': a %s object' % cls.split('.')[-1], where,
+                          found=T.show(leaf, maxdepth=2)):
+            continue
+        for nm, e in (('testnet', net), ('mnemonic', mn), ('password', pwd)):
+            same_term(ob, T.assume(attr_of(ev, leaf, nm, fx), set(cs)), T.assume(e, set(cs)), '%s: wallet.%s' % (what, nm), where)
+        same_term(ob, T.truth(attr_of(ev, leaf, 'watch_only', fx)), T.FALSE, what + ': not watch-only', where)
+        for holder, path in (('wallet.master', ('master',)), ('wallet.bip85.master_node', ('bip85', 'master_node'))):
+            node = leaf
+            for a in path:
+                node = attr_of(ev, node, a, fx)
+            same_node(ob, ev, T.assume(node, set(cs)), PRV, '%s: %s' % (what, holder), where, facts=fx, prv=T.assume(mk_, set(cs)),
+                      chain=T.assume(mc_, set(cs)), depth=T.const(0), index=T.const(0), testnet=T.assume(net, set(cs)),
+                      parent_fpr=T.const(b'\x00' * 4))
+
+
 def run(ctx):
     p = ctx.p
     ctx.explanation = (
@@ -50,19 +74,24 @@ def run(ctx):
             v, f = ev.call_function('bip32.PrvKeyNode.master_key', [T.clsref(PRV), seed, tn])
             nl = normal_leaves(v)
             ob.require(len(nl) >= 1, 'master_key can return a node', fm.where)
-            for cs, leaf in nl:
-                same_term(ob, leaf, master_node_term(seed, tn), 'master node', fm.where)
-                ob.require(not T.contains(T.obj_fields(leaf)['key'], lambda x: x == tn) and
-                           not T.contains(T.obj_fields(leaf)['chain_code'], lambda x: x == tn),
-                           'the network flag influences key material', fm.where)
-            v2, _ = ev.call_function('bip32.PrvKeyNode.master_key', [T.clsref(PRV), seed])
-            for cs, leaf in normal_leaves(v2):
-                same_term(ob, T.obj_fields(leaf)['testnet'], T.FALSE, 'default network is mainnet', fm.where)
+            mk_, mc_ = SP.master(seed)
+            same_node(ob, ev, v, PRV, 'master node', fm.where, facts=f, prv=mk_, pub=T.pt(mk_), chain=mc_, depth=T.const(0),
+                      index=T.const(0), testnet=tn, parent_fpr=T.const(b'\x00' * 4))
+            v2, f2 = ev.call_function('bip32.PrvKeyNode.master_key', [T.clsref(PRV), seed])
+            same_node(ob, ev, v2, PRV, 'master node (default network is mainnet)', fm.where, facts=f2, testnet=T.FALSE)
     # constructors -------------------------------------------------------------------------------
     summ = dict(X.DEFAULT_SUMMARIES)
     summ['bip39.mnemonic_from_entropy'] = lambda ev_, fi, env, facts: (T.raw_op('MNEMONIC', env[fi.params[0]]), facts)
-    summ['bip39.mnemonic_from_entropy_bits'] = lambda ev_, fi, env, facts: (T.raw_op('FRESH', env[fi.params[0]]), facts)
-    T.STR_OPS.update({'MNEMONIC', 'FRESH'})
+    T.STR_OPS.update({'MNEMONIC'})
+
+    def fresh_term(ev_, nbits):
+        """The sentence a fresh draw of nbits gives: whatever bip39.mnemonic_from_entropy_bits computes (C08 decides that
+        this is MNEMONIC(hex(nbits from the CSPRNG))); the wallet constructors must hold exactly that sentence."""
+        v_, _f = ev_.call_function('bip39.mnemonic_from_entropy_bits', [T.const(nbits)])
+        nl_ = distinct_normal_leaves(v_)
+        if len(nl_) != 1:
+            raise AnalysisError('C03.CTOR', 'mnemonic_from_entropy_bits(%d) does not evaluate to one sentence term' % nbits)
+        return nl_[0]
     hexs, ehex, bits, mlen = S('seed_hex', type='str'), S('entropy_hex', type='str'), S('bits', type='int'), S('mlen', type='int')
     seedb = S('seed', type='bytes')
     for be in BACKENDS:
@@ -70,8 +99,8 @@ def run(ctx):
             cfg = '%s/%s' % (be, cls.split('.')[-1])
             ev = Evaluator(p, be, summaries=summ)
 
-            def wallet_of(seed, mn=T.NONE, pwd=T.NONE):
-                return wallet_term(cls, master_node_term(seed, tn), tn, mn, pwd)
+            def wallet_of(seed, mn=T.NONE, pwd=T.NONE, net=None):
+                return (seed, mn, pwd, tn if net is None else net)
             cases = [
                 ('from_bip39_seed_bytes', [seedb, tn], {}, wallet_of(seedb)),
                 ('from_bip39_seed_hex', [hexs, tn], {}, wallet_of(X.fromhex(hexs))),
@@ -79,31 +108,41 @@ def run(ctx):
                 ('from_mnemonic', [m], {'testnet': tn}, wallet_of(SP.bip39_seed(m, T.const('')), m, T.const(''))),
                 ('from_entropy_hex', [ehex, pw, tn], {},
                  wallet_of(SP.bip39_seed(T.raw_op('MNEMONIC', ehex), pw), T.raw_op('MNEMONIC', ehex), pw)),
-                ('from_entropy_bits', [bits, pw, tn], {},
-                 wallet_of(SP.bip39_seed(T.raw_op('FRESH', bits), pw), T.raw_op('FRESH', bits), pw)),
             ]
+            for nb in (128, 160, 192, 224, 256):
+                fr_ = fresh_term(ev, nb)
+                cases.append(('from_entropy_bits', [T.const(nb), pw, tn], {}, wallet_of(SP.bip39_seed(fr_, pw), fr_, pw)))
             for name, args, kw, exp in cases:
                 fi = p.get_function('base_wallet.BaseWallet.' + name)
                 with ctx.obligation('C03.CTOR', 'BaseWallet.' + name, cfg, fi.where) as ob:
                     v, f = ev.call_function('base_wallet.BaseWallet.' + name, [T.clsref(cls)] + args, kw)
                     nl = normal_leaves(v)
                     ob.require(len(nl) >= 1, 'constructor can return a wallet', fi.where)
-                    for cs, leaf in nl:
-                        same_term(ob, T.assume(leaf, set(cs)), T.assume(exp, set(cs)),
-                                  '%s builds the wallet of the BIP39/BIP32 master for its arguments '
-                                  '(password, mnemonic and network forwarded unchanged)' % name, fi.where)
+                    same_wallet(ob, ev, v, f, cls, exp, '%s builds the wallet of the BIP39/BIP32 master for its arguments '
+                                '(password, mnemonic and network forwarded unchanged)' % name, fi.where)
+            # ... "or from the resulting master extended private key": the serialised master parsed back
+            fi = p.get_function('base_wallet.BaseWallet.from_extended_key')
+            with ctx.obligation('C03.CTOR', 'BaseWallet.from_extended_key', cfg, fi.where) as ob:
+                mk_, mc_ = SP.master(seedb)
+                for net_, ver in ((False, SP.XPRV), (True, SP.TPRV)):
+                    payload = SP.serialize(T.const(ver), T.const(0), T.const(b'\x00' * 4), T.const(0), mc_, T.cat(T.const(b'\x00'), mk_))
+                    s2 = dict(summ)
+                    s2['helper.decode_base58_checksum'] = lambda ev_, fi_, env, facts, B=payload: (B, facts)
+                    e2 = Evaluator(p, be, summaries=s2)
+                    v, f = e2.call_function('base_wallet.BaseWallet.from_extended_key', [T.clsref(cls), S('xprv', type='str')])
+                    same_wallet(ob, e2, v, f, cls, (seedb, T.NONE, T.NONE, T.const(net_)),
+                                'from_extended_key(master %s of a seed) holds the same master key material'
+                                % ('tprv' if net_ else 'xprv'), fi.where)
             fi = p.get_function('base_wallet.BaseWallet.new_wallet')
             with ctx.obligation('C03.CTOR', 'BaseWallet.new_wallet', cfg, fi.where) as ob:
                 v0, _ = ev.call_function('base_wallet.BaseWallet.new_wallet', [T.clsref(cls)])
-                fresh0 = T.raw_op('FRESH', T.const(256))
-                for leaf in distinct_normal_leaves(v0):
-                    same_term(ob, leaf, wallet_term(cls, master_node_term(SP.bip39_seed(fresh0, T.const('')), T.FALSE), T.FALSE, fresh0, T.const('')),
-                              'new_wallet() defaults: 24 words (256 bits), empty passphrase, mainnet', fi.where)
+                fresh0 = fresh_term(ev, 256)
+                same_wallet(ob, ev, v0, _, cls, (SP.bip39_seed(fresh0, T.const('')), fresh0, T.const(''), T.FALSE),
+                            'new_wallet() defaults: 24 words (256 bits), empty passphrase, mainnet', fi.where)
                 ob.require(len(distinct_normal_leaves(v0)) >= 1, 'new_wallet() with defaults produces a wallet', fi.where)
                 tbl = ev.module_const('bip39', 'MNEMONIC_LENGTH_TO_ENTROPY_BITS')
                 for words, ebits in ((12, 128), (15, 160), (18, 192), (21, 224), (24, 256)):
                     v, f = ev.call_function('base_wallet.BaseWallet.new_wallet', [T.clsref(cls), T.const(words), pw, tn])
-                    fresh = T.raw_op('FRESH', T.const(ebits))
-                    for cs, leaf in normal_leaves(v):
-                        same_term(ob, leaf, wallet_of(SP.bip39_seed(fresh, pw), fresh, pw),
-                                  'new_wallet(%d words) draws %d bits and forwards password/network' % (words, ebits), fi.where)
+                    fresh = fresh_term(ev, ebits)
+                    same_wallet(ob, ev, v, f, cls, wallet_of(SP.bip39_seed(fresh, pw), fresh, pw),
+                                'new_wallet(%d words) draws %d bits and forwards password/network' % (words, ebits), fi.where)
